@@ -454,6 +454,10 @@ func (node *TopNode) getParts(src *syntax.CallStm,
 	if len(parts) == 1 && parts[0].Id.IndexSource() != nil &&
 		(parts[0].Range == nil || parts[0].Range.Length() >= 0) {
 		matchingParts := make([]*ForkSourcePart, 0, len(boundNode.forks))
+		// If the bound node also forks over other calls, several of its
+		// forks share the same index for this call.  Each index must be
+		// returned only once.
+		seen := make(map[ForkIdPart]struct{}, len(boundNode.forks))
 		for _, fork := range boundNode.forks {
 			if p, err := fork.forkId.matchPart(parts[0].Split.Call); err != nil {
 				if parts[0].Split.Call == src {
@@ -467,7 +471,10 @@ func (node *TopNode) getParts(src *syntax.CallStm,
 					})
 				}
 			} else if fork.forkId.Matches(forkId) {
-				matchingParts = append(matchingParts, p)
+				if _, ok := seen[p.Id]; !ok {
+					seen[p.Id] = struct{}{}
+					matchingParts = append(matchingParts, p)
+				}
 			}
 		}
 		parts = matchingParts
